@@ -37,9 +37,11 @@ type job struct {
 	OnTracksErr bool                 `json:"ontracks_err"`
 	// CloseAt >= 0: Close() is called when the CloseAt-th request (0-based, over all paths)
 	// arrives; that request is answered only through its context.
-	CloseAt         int `json:"close_at"`
-	DeadlineMS      int `json:"deadline_ms"`       // wait this long for Wait() before calling Close()
-	CloseDeadlineMS int `json:"close_deadline_ms"` // after Close(), wait this long for Wait()
+	CloseAt int `json:"close_at"`
+	// CloseAfterDataMS > 0: Close() is called this many ms after the first onData callback
+	CloseAfterDataMS int `json:"close_after_data_ms"`
+	DeadlineMS       int `json:"deadline_ms"`       // wait this long for Wait() before calling Close()
+	CloseDeadlineMS  int `json:"close_deadline_ms"` // after Close(), wait this long for Wait()
 }
 
 // childResult is the child's output.
@@ -180,6 +182,20 @@ func runChild(jobPath string) {
 		})
 	}
 
+	// Close() in the middle of a segment: some time after the first unit was delivered
+	var dataOnce sync.Once
+	onData := func() {
+		if j.CloseAfterDataMS <= 0 {
+			return
+		}
+		dataOnce.Do(func() {
+			go func() {
+				time.Sleep(time.Duration(j.CloseAfterDataMS) * time.Millisecond)
+				tr.onClose()
+			}()
+		})
+	}
+
 	c = &gohlslib.Client{
 		URI:                       j.URI,
 		HTTPClient:                &http.Client{Transport: tr},
@@ -199,15 +215,15 @@ func runChild(jobPath string) {
 				// what an application does: a type switch over the codec, one callback per known type
 				switch t.Codec.(type) {
 				case *codecs.AV1:
-					c.OnDataAV1(t, func(int64, [][]byte) { atomic.AddInt64(n, 1) })
+					c.OnDataAV1(t, func(int64, [][]byte) { atomic.AddInt64(n, 1); onData() })
 				case *codecs.VP9:
-					c.OnDataVP9(t, func(int64, []byte) { atomic.AddInt64(n, 1) })
+					c.OnDataVP9(t, func(int64, []byte) { atomic.AddInt64(n, 1); onData() })
 				case *codecs.H265, *codecs.H264:
-					c.OnDataH26x(t, func(int64, int64, [][]byte) { atomic.AddInt64(n, 1) })
+					c.OnDataH26x(t, func(int64, int64, [][]byte) { atomic.AddInt64(n, 1); onData() })
 				case *codecs.Opus:
-					c.OnDataOpus(t, func(int64, [][]byte) { atomic.AddInt64(n, 1) })
+					c.OnDataOpus(t, func(int64, [][]byte) { atomic.AddInt64(n, 1); onData() })
 				case *codecs.MPEG4Audio:
-					c.OnDataMPEG4Audio(t, func(int64, [][]byte) { atomic.AddInt64(n, 1) })
+					c.OnDataMPEG4Audio(t, func(int64, [][]byte) { atomic.AddInt64(n, 1); onData() })
 				}
 			}
 			// also on stderr, so that the parent knows the exposed tracks when the process dies in a panic
